@@ -313,6 +313,267 @@ def defStructs : List (List String) := [
   ["mailOnDef", "Failure", "bool"],
   ["mailOnDef", "Success", "bool"]]
 
+def displayEdges : List (List String) := [
+  ["client.GetDAGSpec", "local.GetSpec"],
+  ["client.CreateDAG", "local.Create"],
+  ["client.Grep", "local.Grep"],
+  ["client.Rename", "local.Find"],
+  ["client.Rename", "local.Rename"],
+  ["client.StartAsync", "client.Start"],
+  ["client.Start", "model.Params"],
+  ["client.Start", "client.escapeArg"],
+  ["client.Restart", "client.Start"],
+  ["client.Retry", "client.Start"],
+  ["client.GetCurrentStatus", "model.NewStatusDefault"],
+  ["client.GetCurrentStatus", "model.StatusFromJSON"],
+  ["client.GetStatusByRequestID", "client.GetCurrentStatus"],
+  ["client.GetStatusByRequestID", "model.CorrectRunningStatus"],
+  ["client.currentStatus", "model.StatusFromJSON"],
+  ["client.GetLatestStatus", "client.currentStatus"],
+  ["client.GetLatestStatus", "model.NewStatusDefault"],
+  ["client.GetLatestStatus", "model.CorrectRunningStatus"],
+  ["client.UpdateStatus", "model.StatusFromJSON"],
+  ["client.UpdateDAG", "local.UpdateSpec"],
+  ["client.DeleteDAG", "local.Delete"],
+  ["client.GetAllStatus", "local.List"],
+  ["client.GetAllStatus", "client.readStatus"],
+  ["client.GetAllStatusPagination", "client.currentStatus"],
+  ["client.GetAllStatusPagination", "local.ListPagination"],
+  ["client.GetAllStatusPagination", "client.readStatus"],
+  ["client.GetAllStatusPagination", "client.getPageCount"],
+  ["client.getDAG", "local.GetDetails"],
+  ["client.getDAG", "client.emptyDAGIfNil"],
+  ["client.GetStatus", "client.getDAG"],
+  ["client.GetStatus", "client.GetLatestStatus"],
+  ["client.GetStatus", "client.IsSuspended"],
+  ["client.GetStatus", "local.IsSuspended"],
+  ["client.ToggleSuspend", "local.ToggleSuspend"],
+  ["client.readStatus", "client.GetLatestStatus"],
+  ["client.readStatus", "client.IsSuspended"],
+  ["client.readStatus", "local.IsSuspended"],
+  ["client.IsSuspended", "local.IsSuspended"],
+  ["client.escapeArg", "model.String"],
+  ["client.GetTagList", "local.TagList"],
+  ["model.FromSteps", "model.NewNode"],
+  ["model.FromNodes", "model.FromNode"],
+  ["model.FromNode", "model.String"],
+  ["model.FromNode", "model.errText"],
+  ["model.ToNode", "model.errFromText"],
+  ["model.NewNode", "model.String"],
+  ["model.FromNodesOrSteps", "model.FromNodes"],
+  ["model.FromNodesOrSteps", "model.FromSteps"],
+  ["model.NewStatusDefault", "model.NewStatus"],
+  ["model.NewStatus", "model.String"],
+  ["model.NewStatus", "model.FromNodesOrSteps"],
+  ["model.NewStatus", "model.nodeOrNil"],
+  ["model.NewStatus", "model.Params"],
+  ["model.CorrectRunningStatus", "model.String"],
+  ["model.nodeOrNil", "model.NewNode"],
+  ["local.GetMetadata", "local.fileLocation"],
+  ["local.GetDetails", "local.fileLocation"],
+  ["local.GetSpec", "local.fileLocation"],
+  ["local.UpdateSpec", "local.fileLocation"],
+  ["local.UpdateSpec", "local.exists"],
+  ["local.UpdateSpec", "local.writeFileAtomic"],
+  ["local.Create", "local.ensureDirExist"],
+  ["local.Create", "local.fileLocation"],
+  ["local.Create", "local.exists"],
+  ["local.Delete", "local.fileLocation"],
+  ["local.ensureDirExist", "local.exists"],
+  ["local.searchName", "local.fileName"],
+  ["local.ListPagination", "local.checkExtension"],
+  ["local.ListPagination", "local.GetMetadata"],
+  ["local.ListPagination", "local.searchName"],
+  ["local.ListPagination", "local.searchTags"],
+  ["local.List", "local.ensureDirExist"],
+  ["local.List", "local.checkExtension"],
+  ["local.List", "local.GetMetadata"],
+  ["local.Grep", "local.ensureDirExist"],
+  ["local.Rename", "local.fileLocation"],
+  ["local.Rename", "local.exists"],
+  ["local.Find", "local.resolve"],
+  ["local.resolve", "local.find"],
+  ["local.TagList", "local.checkExtension"],
+  ["local.TagList", "local.GetMetadata"],
+  ["local.TagList", "local.getTagList"],
+  ["local.TagList", "fdag.getTagList"],
+  ["local.ToggleSuspend", "local.Create"],
+  ["local.ToggleSuspend", "local.fileName"],
+  ["local.ToggleSuspend", "client.IsSuspended"],
+  ["local.ToggleSuspend", "local.IsSuspended"],
+  ["local.ToggleSuspend", "local.Delete"],
+  ["local.IsSuspended", "local.fileName"],
+  ["local.fileName", "local.normalizeFilename"],
+  ["fdag.Configure", "fdag.handleRemoteNodeProxy"],
+  ["fdag.Configure", "fdag.getList"],
+  ["fdag.Configure", "fdag.getDetail"],
+  ["fdag.Configure", "fdag.postAction"],
+  ["fdag.Configure", "fdag.createDAG"],
+  ["fdag.Configure", "fdag.deleteDAG"],
+  ["fdag.Configure", "fdag.searchDAGs"],
+  ["fdag.Configure", "local.getTagList"],
+  ["fdag.Configure", "fdag.getTagList"],
+  ["fdag.handleRemoteNodeProxy", "fdag.doRemoteProxy"],
+  ["fdag.createDAG", "client.CreateDAG"],
+  ["fdag.deleteDAG", "client.GetStatus"],
+  ["fdag.deleteDAG", "client.DeleteDAG"],
+  ["fdag.getList", "client.GetAllStatusPagination"],
+  ["fdag.getList", "model.Params"],
+  ["fdag.getList", "fdag.convertToDAG"],
+  ["fdag.getDetail", "client.GetStatus"],
+  ["fdag.getDetail", "fdag.convertToStepObject"],
+  ["fdag.getDetail", "model.Params"],
+  ["fdag.getDetail", "fdag.convertToStatusDetail"],
+  ["fdag.getDetail", "fdag.processSpecRequest"],
+  ["fdag.getDetail", "fdag.processLogRequest"],
+  ["fdag.getDetail", "fdag.processStepLogRequest"],
+  ["fdag.getDetail", "fdag.processSchedulerLogRequest"],
+  ["fdag.processSchedulerLogRequest", "client.GetLatestStatus"],
+  ["fdag.processSchedulerLogRequest", "fdag.readFileContent"],
+  ["fdag.processStepLogRequest", "client.GetLatestStatus"],
+  ["fdag.processStepLogRequest", "fdag.readFileContent"],
+  ["fdag.processStepLogRequest", "fdag.convertToNode"],
+  ["fdag.processSpecRequest", "client.GetDAGSpec"],
+  ["fdag.processLogRequest", "client.GetRecentHistory"],
+  ["fdag.processLogRequest", "fdag.addNodeStatus"],
+  ["fdag.processLogRequest", "model.String"],
+  ["fdag.processLogRequest", "fdag.convertToStatusDetail"],
+  ["fdag.postAction", "client.GetStatus"],
+  ["fdag.postAction", "client.StartAsync"],
+  ["fdag.postAction", "model.Params"],
+  ["fdag.postAction", "client.ToggleSuspend"],
+  ["fdag.postAction", "local.ToggleSuspend"],
+  ["fdag.postAction", "client.Stop"],
+  ["fdag.postAction", "client.Retry"],
+  ["fdag.postAction", "fdag.processUpdateStatus"],
+  ["fdag.postAction", "client.UpdateDAG"],
+  ["fdag.postAction", "client.Rename"],
+  ["fdag.postAction", "local.Rename"],
+  ["fdag.processUpdateStatus", "client.GetStatusByRequestID"],
+  ["fdag.processUpdateStatus", "model.String"],
+  ["fdag.processUpdateStatus", "client.UpdateStatus"],
+  ["fdag.searchDAGs", "client.Grep"],
+  ["fdag.searchDAGs", "local.Grep"],
+  ["fdag.searchDAGs", "fdag.convertToDAG"],
+  ["fdag.getTagList", "client.GetTagList"],
+  ["fdag.convertToDAG", "model.Params"],
+  ["fdag.convertToStatusDetail", "model.Params"],
+  ["fdag.convertToStatusDetail", "fdag.convertToNode"],
+  ["fdag.convertToNode", "fdag.convertToStepObject"],
+  ["fdag.convertToStepObject", "model.Params"]]
+
+def displayFuncs : List (List String) := [
+  ["client.CreateDAG"],
+  ["client.DeleteDAG"],
+  ["client.GetAllStatus"],
+  ["client.GetAllStatusPagination"],
+  ["client.GetCurrentStatus"],
+  ["client.GetDAGSpec"],
+  ["client.GetLatestStatus"],
+  ["client.GetRecentHistory"],
+  ["client.GetStatus"],
+  ["client.GetStatusByRequestID"],
+  ["client.GetTagList"],
+  ["client.Grep"],
+  ["client.IsSuspended"],
+  ["client.New"],
+  ["client.Rename"],
+  ["client.Restart"],
+  ["client.Retry"],
+  ["client.Start"],
+  ["client.StartAsync"],
+  ["client.Stop"],
+  ["client.ToggleSuspend"],
+  ["client.UpdateDAG"],
+  ["client.UpdateStatus"],
+  ["client.currentStatus"],
+  ["client.emptyDAGIfNil"],
+  ["client.escapeArg"],
+  ["client.getDAG"],
+  ["client.getPageCount"],
+  ["client.readStatus"],
+  ["fdag.Configure"],
+  ["fdag.NewHandler"],
+  ["fdag.addNodeStatus"],
+  ["fdag.convertToDAG"],
+  ["fdag.convertToNode"],
+  ["fdag.convertToStatusDetail"],
+  ["fdag.convertToStepObject"],
+  ["fdag.createDAG"],
+  ["fdag.deleteDAG"],
+  ["fdag.doRemoteProxy"],
+  ["fdag.getDetail"],
+  ["fdag.getList"],
+  ["fdag.getTagList"],
+  ["fdag.handleRemoteNodeProxy"],
+  ["fdag.postAction"],
+  ["fdag.processLogRequest"],
+  ["fdag.processSchedulerLogRequest"],
+  ["fdag.processSpecRequest"],
+  ["fdag.processStepLogRequest"],
+  ["fdag.processUpdateStatus"],
+  ["fdag.readFileContent"],
+  ["fdag.searchDAGs"],
+  ["local.Create"],
+  ["local.Delete"],
+  ["local.Find"],
+  ["local.GetDetails"],
+  ["local.GetMetadata"],
+  ["local.GetSpec"],
+  ["local.Grep"],
+  ["local.IsSuspended"],
+  ["local.List"],
+  ["local.ListPagination"],
+  ["local.NewDAGStore"],
+  ["local.NewFlagStore"],
+  ["local.Rename"],
+  ["local.TagList"],
+  ["local.ToggleSuspend"],
+  ["local.UpdateSpec"],
+  ["local.checkExtension"],
+  ["local.ensureDirExist"],
+  ["local.exists"],
+  ["local.fileLocation"],
+  ["local.fileName"],
+  ["local.find"],
+  ["local.getTagList"],
+  ["local.normalizeFilename"],
+  ["local.resolve"],
+  ["local.searchName"],
+  ["local.searchTags"],
+  ["local.writeFileAtomic"],
+  ["model.CorrectRunningStatus"],
+  ["model.FormatTime"],
+  ["model.FromNode"],
+  ["model.FromNodes"],
+  ["model.FromNodesOrSteps"],
+  ["model.FromSteps"],
+  ["model.IsRunning"],
+  ["model.NewNode"],
+  ["model.NewStatus"],
+  ["model.NewStatusDefault"],
+  ["model.Params"],
+  ["model.StatusFromJSON"],
+  ["model.String"],
+  ["model.Time"],
+  ["model.ToJSON"],
+  ["model.ToNode"],
+  ["model.errFromText"],
+  ["model.errText"],
+  ["model.nodeOrNil"]]
+
+def displayLoaderCalls : List (List String) := [
+  ["local.GetMetadata", "LoadMetadata"],
+  ["local.GetDetails", "LoadWithoutEval"],
+  ["local.UpdateSpec", "LoadYAML"],
+  ["local.Grep", "LoadMetadata"],
+  ["local.Find", "LoadWithoutEval"]]
+
+def displaySites : List (List String) := [
+  ["client.Start", "exec.Command", "0", "exec"],
+  ["client.Restart", "exec.Command", "0", "exec"],
+  ["client.Retry", "exec.Command", "0", "exec"]]
+
 def effectSites : List (List String) := [
   ["buildLogDir", "os.ExpandEnv", "0", "expand", "F", "-"],
   ["loadVariables", "os.ExpandEnv", "0", "expand", "F", "-"],
